@@ -1,20 +1,23 @@
 """Register the harness schema family the way an installed package would be registered:
-real EntryPoint objects bound to a distribution, plus package metadata in the plugin system."""
+real EntryPoint objects bound to a distribution, plus package metadata in the plugin system.
+
+Each environment ('old' = 1.0.0 family, 'new' = 1.1.0 family, 'v2') is one release of the package
+'vt-schemas' (version 1.0.0 / 1.1.0 / 2.0.0): a package release provides one version of each schema.
+"""
 from __future__ import annotations
 
 import mc.env  # noqa: F401
 
 PKG_NAME = "vt-schemas"
-PKG_VERSION = (1, 2, 3)
+PKG_VERSIONS = {"old": (1, 0, 0), "new": (1, 1, 0), "v2": (2, 0, 0)}
 
 
 class _FakeDist:
     """Minimal stand-in for importlib_metadata.Distribution (what the plugin system consults)."""
 
-    name = PKG_NAME
-    version = ".".join(map(str, PKG_VERSION))
-
-    def __init__(self):
+    def __init__(self, name, version):
+        self.name = name
+        self.version = ".".join(map(str, version))
         self._eps = []
 
     @property
@@ -36,31 +39,37 @@ class _FakeDist:
 _done = {}
 
 
+def pkg_name(env_name):
+    # distinct distribution names only when several environments are registered in one process
+    return PKG_NAME if len(_done) <= 1 else f"{PKG_NAME}-{env_name}"
+
+
 def register(envs=("old",)):
-    """Register the vt.* schemas of the given environments ('old', 'new'). Idempotent per env."""
+    """Register the vt.* schemas of the given environments. Idempotent per env."""
     from importlib_metadata import EntryPoint
 
-    from metador_core.plugin.types import to_ep_name
+    from metador_core.plugin.types import EPName, from_ep_name, to_ep_name
     from metador_core.plugins import schemas
     from metador_core.schema.plugins import PluginPkgMeta, PluginRef
 
     from mc import vtschemas
 
-    dist = _done.setdefault("dist", _FakeDist())
     for e in envs:
         if e in _done:
             continue
-        _done[e] = True
+        name = PKG_NAME if not _done else f"{PKG_NAME}-{e}"
+        dist = _FakeDist(name, PKG_VERSIONS[e])
+        _done[e] = dist
         for cls in vtschemas.CLASSES[e]:
             epn = to_ep_name(cls.Plugin.name, cls.Plugin.version)
+            if any(x.name == epn for d in _done.values() for x in d._eps):
+                continue
             ep = EntryPoint(epn, f"mc.vtschemas:{cls.__name__}", "metador_schema")._for(dist)
             dist._eps.append(ep)
             schemas._add_ep(epn, ep)
-    refs = []
-    for ep in dist._eps:
-        from metador_core.plugin.types import EPName, from_ep_name
-
-        n, v = from_ep_name(EPName(ep.name))
-        refs.append(PluginRef(group="schema", name=n, version=v))
-    schemas._PKG_META[PKG_NAME] = PluginPkgMeta(name=PKG_NAME, version=PKG_VERSION, plugins={"schema": refs})
+        refs = []
+        for ep in dist._eps:
+            n, v = from_ep_name(EPName(ep.name))
+            refs.append(PluginRef(group="schema", name=n, version=v))
+        schemas._PKG_META[name] = PluginPkgMeta(name=name, version=PKG_VERSIONS[e], plugins={"schema": refs})
     return schemas
